@@ -207,9 +207,14 @@ def conformance(jobs):
                 elif xn in want and ln.startswith('{"e":"alloc"') and '"r":"ok"' in ln:
                     e = json.loads(ln)
                     got.setdefault(xn, []).append((e["b"], e["off"]))
+        def ranks(seq):
+            # block numbers by order of first appearance: a move assignment in the script makes the
+            # target object take (and give back) a block of its own, which shifts the raw numbers
+            m = {}
+            return [(m.setdefault(b, len(m)), off) for b, off in seq]
         for i, exp in want.items():
             checked += 1
-            if got.get(i, []) == exp:
+            if ranks(got.get(i, [])) == ranks(exp):
                 matched += 1
             elif len(drifts) < 5:
                 drifts.append({"cfg": job.cfg, "header": job.execs[i][0], "cmds": job.execs[i][1], "expected": exp,
